@@ -596,6 +596,9 @@ func singularTypeIsValid(fd protoreflect.FieldDescriptor, v protoreflect.Value) 
 		if dm, ok := vi.(*Message); ok && dm.known == nil {
 			return errors.New("%v: assigning invalid zero-value message", fd.FullName())
 		}
+		if ok && !m.IsValid() {
+			return errors.New("%v: assigning invalid read-only message", fd.FullName())
+		}
 	}
 	if !ok {
 		return errors.New("%v: assigning invalid type %T", fd.FullName(), v.Interface())
